@@ -1,14 +1,21 @@
 #!/usr/bin/env python3
-"""Runs the claimed property's quick check (and all other checks with --all) against every kept seeded change,
+"""Runs the claimed property's quick check (and all other checks with --all) against every kept seeded change (or those whose name matches --only=<regex>),
 records the obligation keys that fired in its meta.json, and prints a table. /repo is restored after each."""
 import json, os, subprocess, sys, glob
 allp = "--all" in sys.argv
+import re
+only = None
+for a in sys.argv[1:]:
+    if a.startswith("--only="):
+        only = re.compile(a[len("--only="):])
 rows = []
 from concurrent.futures import ThreadPoolExecutor
 def run(p):
     out = subprocess.run(f"/verif/bin/wvsa check -p {p} -no-evidence", shell=True, capture_output=True, text=True).stdout
     return p, [l.split("key=")[1].strip() for l in out.splitlines() if l.strip().startswith("rule=") and "key=" in l]
 for d in sorted(glob.glob("/verif/seeded/*/")):
+    if only and not only.search(os.path.basename(d.rstrip("/"))):
+        continue
     meta = json.load(open(d + "meta.json"))
     pid = meta["property"]
     assert subprocess.run("git -C /repo status --porcelain", shell=True, capture_output=True, text=True).stdout == "", "/repo dirty"
